@@ -35,6 +35,8 @@ def evaluate(seed_dir, verify=True):
         p = subprocess.run(["git", "apply", "--whitespace=nowarn", os.path.join(seed_dir, "patch.diff")], cwd=dst, capture_output=True, text=True)
         if p.returncode != 0:
             res["error"] = "patch does not apply: " + p.stderr[-300:]
+            with open(os.path.join(seed_dir, "result.json"), "w") as f:
+                json.dump(res, f, indent=1)
             return res
         if verify:
             b = subprocess.run([os.path.join(VERIF, "tools", "baseline.py"), dst], capture_output=True, text=True)
